@@ -576,8 +576,8 @@ func evalBatch(cases []Case, driver string) []result {
 		res[i] = result{c: c, s: runCase(c)}
 		lines = append(lines, res[i].s.lines...)
 	}
-	if driver == "" {
-		return res
+	if driver == "" || len(lines) == 0 {
+		return res // nothing to compare (e.g. a relay scenario abandoned before its first operation)
 	}
 	out, err := common.RunDriverOnce(driver, lines)
 	pos := 0
